@@ -3,6 +3,7 @@
 //! With debug >= 1 the library prints to stdout; results go to the out file, so that is harmless here.
 use crate::cases::{enc_text, hex, text};
 use sakuramml::SakuraCompiler;
+use sakuramml::{lexer, midi, runner, song::Song};
 use std::panic;
 
 fn res(bin: &[u8], log: &str) -> String {
@@ -67,6 +68,16 @@ pub fn run_case(f: &[String]) -> Option<String> {
             let b2 = c.compile(&src);
             let l2 = c.get_log();
             Some(format!("{}\t{}", res(&b1, &l1), res(&b2, &l2)))
+        }
+        // compile_lex_ja <src>  ->  bytes, log of the stages of `compile_lex` (lexer::lex + runner::exec + midi::generate, no
+        // sutoton::convert) on a song whose message language was set to ja before lexing, as SakuraCompiler::compile does
+        "compile_lex_ja" => {
+            let mut song = Song::new();
+            song.set_language("ja");
+            let tokens = lexer::lex(&mut song, &text(&f[1]), 0);
+            runner::exec(&mut song, &tokens);
+            let bin = midi::generate(&mut song);
+            Some(res(&bin, &song.get_logs_str()))
         }
         _ => None,
     }
